@@ -501,6 +501,21 @@ func genC19(t *rapid.T) C19Case {
 			sort.SliceStable(c.Input, func(i, j int) bool { return keyLess(c.Kind, c.Input[i].Key, c.Input[j].Key) })
 		}
 	}
+	if c.Strategy == "update" && len(c.Input) > 0 && rapid.IntRange(0, 2).Draw(t, "repeat") == 0 {
+		// the point update needs neither sorted nor unique input: the same key may come again, and the later
+		// decision then applies to what the earlier one left (also when the DBI was empty to begin with)
+		for r := rapid.IntRange(1, 3).Draw(t, "nrepeat"); r > 0; r-- {
+			src := c.Input[rapid.IntRange(0, len(c.Input)-1).Draw(t, "rep_of")]
+			again := ScriptItem{Key: src.Key, Merge: rapid.SampledFrom([]string{decKeep, decAppend, decAppend, decReplace, decDelete}).Draw(t, "rep_merge")}
+			switch again.Merge {
+			case decAppend:
+				again.Val = model.Bytes("r")
+			case decReplace:
+				again.Val = val("rv", src.Key, 'R')
+			}
+			c.Input = append(c.Input, again)
+		}
+	}
 	if c.Strategy == "update" && len(c.Input) > 1 && rapid.Bool().Draw(t, "shuffle") {
 		// Update does not need sorted input
 		perm := rapid.Permutation(c.Input).Draw(t, "perm")
